@@ -47,7 +47,12 @@ class Struct:
         """Reflection."""
         return {
             "name": self.name,
-            "fields": [struct_field.reflection() for struct_field in self.fields],
+            "fields": [
+                struct_field.reflection()
+                for struct_field in sorted(
+                    self.fields, key=lambda struct_field: struct_field.field_id
+                )
+            ],
             "meta": self.meta.reflection() if self.meta else None,
         }
 
